@@ -1048,6 +1048,9 @@ def move_clause(out, tag, src, res, dtype_move):
     if res.qtype != src.qtype or res.axis != src.axis or getattr(res, "_group_size", None) != getattr(src, "_group_size", None):
         out.fail(f"{tag}/move/metadata", f"{describe(src)} -> {describe(res)}")
         return
+    if tuple(res.shape) != tuple(src.shape):
+        out.fail(f"{tag}/move/shape", f"the copy reports shape {tuple(res.shape)}, its source {tuple(src.shape)}")
+        return
     if isinstance(src, QBytesTensor):
         same = src._data.dtype == res._data.dtype and tuple(src._data.shape) == tuple(res._data.shape) and torch.equal(src._data.view(torch.uint8), res._data.view(torch.uint8))
     else:
